@@ -158,7 +158,8 @@ func checksWithTagPrefix(prefix string, checks api.HealthChecks) api.HealthCheck
 			continue
 		}
 		for _, t := range c.ServiceTags {
-			if strings.HasPrefix(t, prefix) {
+			// tags are trimmed when the route commands are built
+			if strings.HasPrefix(strings.TrimSpace(t), prefix) {
 				checksWithPrefix = append(checksWithPrefix, c)
 				break
 			}
